@@ -320,10 +320,16 @@ class Exe:
         if self.ob_filter and not self.ob_filter(full, kind):
             return
         g = simp(goal) if not isinstance(goal, bool) else z3.BoolVal(goal)
+        if not z3.is_true(g) and kind != 'cover':
+            gid = g.get_id()
+            if any(t.get_id() == gid for t in st.pc):
+                g = z3.BoolVal(True)          # the goal is literally one of the facts of this path
         if z3.is_true(g):
             self.obligations.append(Obligation(full, [], z3.BoolVal(True), kind, meta))
             return
         have = {id(t) for t in st.pc}
+        meta = dict(meta or {})
+        meta['n_pc'] = len(st.pc)
         self.obligations.append(Obligation(full, list(st.pc) + [a for a in self.all_axioms if id(a) not in have], g, kind, meta))
 
     def _arith_ob(self, what, goal):
@@ -573,7 +579,21 @@ class Exe:
             o.meta['inited'] = True
             init = [c for c in decl['inner'] if c['kind'] not in ('FullComment',) and 'Attr' not in c['kind']]
             if init:
-                self.init_from(Ptr(o, (0,), (), self.tu.ctype(decl['type'])), init[0], self.cur, const_global=True)
+                # evaluated once in a scratch state; the values become the initial cells of the object in EVERY state
+                # (a constant is not a store of the function under verification, and does not depend on the path that
+                # happens to read it first)
+                from .state import State
+                tmp = State(self)
+                prev_on, prev_cur = self.on_store, self.cur
+                self.on_store, self.cur = (lambda *a, **k: None), tmp
+                try:
+                    self.init_from(Ptr(o, (0,), (), self.tu.ctype(decl['type'])), init[0], tmp, const_global=True)
+                finally:
+                    self.on_store, self.cur = prev_on, prev_cur
+                for (oid, path), store in tmp.heap.items():
+                    if oid == o.id:
+                        for cidx, v in store.conc.items():
+                            self.cellsyms[(o.id, path, cidx, '')] = v
         return Ptr(o, (0,), (), self.tu.ctype(decl['type']))
 
     def _check_deref(self, p, st, n=None):
